@@ -117,6 +117,15 @@ Lost(d, restart) == IF restart
 \* whether a downlink that lost its channel is restarted: a kept downlink that the agent has not stopped; one whose handle
 \* was dropped is restarted only if it has not noticed that yet (either may happen)
 Restarts(d) == IF d.keep /\ ~d.stopped THEN (IF d.orphan THEN {TRUE, FALSE} ELSE {TRUE}) ELSE {FALSE}
+\* The end of the input / a frame that cannot be decoded is taken by the downlink in two steps: it reads it, closes its
+\* own output (which waits for as long as what it has written is not read), and only then hands the event to the agent.
+\* A stop through the handle in between is not looked at before the event has been handed over: its callback still runs,
+\* and the decision to ask for a new channel is taken without the stop - after a failed read at once; after the end of
+\* the input of a linked downlink only when it is next polled (the stop is seen first: no restart).  The new channel, if
+\* any, is dropped as soon as it is attached.
+RestartsTaken(d, n) == IF ~d.keep THEN {FALSE}
+                       ELSE IF n.do = "close" /\ d.ls \in {"L", "S"} THEN {FALSE}
+                       ELSE IF d.orphan THEN {TRUE, FALSE} ELSE {TRUE}
 
 Expect(id, d, n) ==
     CASE n.do = "linked" -> Pair(id, "linked")
@@ -168,7 +177,8 @@ After(d, n, rs) ==
 Consume(id) ==
     /\ cur = 0 /\ D[id].phase = "run" /\ D[id].inq # <<>>
     /\ LET d == D[id]  n == Head(d.inq)  x == Expect(id, d, n) IN
-       /\ \E rs \in Restarts(d) : Upd(id, After([d EXCEPT !.inq = Tail(d.inq)], n, rs))
+       /\ \E rs \in (IF "taken" \in DOMAIN n THEN RestartsTaken(d, n) ELSE Restarts(d)) :
+              Upd(id, After([d EXCEPT !.inq = Tail(d.inq)], n, rs))
        /\ exp' = x
        /\ cur' = IF x = <<>> THEN 0 ELSE id
     /\ UNCHANGED <<LM, stopping, kf>>
@@ -239,9 +249,12 @@ Step(e) ==
        /\ LET d == D[e.id] IN
           \* (what the handle reports is the link state the notifications taken so far imply)
           /\ (d.phase = "run" => (e.linked <=> d.ls \in {"L", "S"}))
-          /\ \E dies \in BOOLEAN :
+          /\ \E dies \in BOOLEAN : \E taken \in BOOLEAN :
                Upd(e.id, IF d.phase = "run" /\ ~d.stopped
-                         THEN [d EXCEPT !.stopped = TRUE, !.inq = <<[do |-> "stop"]>>, !.excused = TRUE]
+                         THEN IF taken /\ d.inq # <<>> /\ Head(d.inq).do \in {"fail", "close"}
+                                \* (the downlink has read the end of its channel already, see RestartsTaken)
+                                THEN [d EXCEPT !.stopped = TRUE, !.inq = <<[do |-> Head(d.inq).do, taken |-> TRUE]>>, !.excused = TRUE]
+                                ELSE [d EXCEPT !.stopped = TRUE, !.inq = <<[do |-> "stop"]>>, !.excused = TRUE]
                          \* (a restart that is owed and has not been seen yet may not happen any more, see `open`)
                          ELSE IF dies /\ d.phase = "asking" /\ d.want /\ d.gen > 0
                          THEN [d EXCEPT !.stopped = TRUE, !.excused = TRUE, !.phase = "dead", !.want = FALSE]
